@@ -56,6 +56,10 @@ func StripDomain(data []byte, domain string) (res []byte) {
 				res = append(res, byte(num))
 			}
 			data = data[4:]
+		} else if len(data) < 2 {
+			// A lone escape character at the very end (the dot it escaped was taken for the
+			// separator in front of the domain): there is nothing left to unescape
+			data = data[1:]
 		} else {
 			// Add char normally
 			res = append(res, data[1])
